@@ -7,6 +7,7 @@ import (
 	"os"
 	"os/exec"
 	"path/filepath"
+	"runtime/debug"
 	"sort"
 	"strconv"
 	"strings"
@@ -466,6 +467,9 @@ func runJob(g *group, fn string, shard, nshard int, opt Options) *JobResult {
 		defer func() {
 			if r := recover(); r != nil {
 				jr.Crash = fmt.Sprint(r)
+				if os.Getenv("VERIF_CRASHTRACE") != "" {
+					fmt.Fprintf(os.Stderr, "engine crash in %s: %v\n%s\n", fn, r, debug.Stack())
+				}
 			}
 		}()
 		eng.RunHarness(g.pkg.Func(fn))
